@@ -127,7 +127,10 @@ def _reaching(cfg, fnode, name, at):
     return out, entry_live
 
 
-def _value_at(cfg, fnode, e, at, depth=3):
+def _value_at(cfg, fnode, e, at, depth=4):
+    """Follow a local name to (value expression, index path) of its unique
+    reaching binding: the name denotes value[path...]; literal tuples on the
+    right-hand side of a parallel assignment are indexed away."""
     while depth and isinstance(e, ast.Name):
         ws, entry_live = _reaching(cfg, fnode, e.id, at)
         if len(ws) != 1 or entry_live:
@@ -135,12 +138,52 @@ def _value_at(cfg, fnode, e, at, depth=3):
         v, p = _bound(ws[0][1], e.id)
         if v is None:
             break
-        if p:
-            return v, p
+        while p and isinstance(v, (ast.Tuple, ast.List)) and len(v.elts) > p[0] and not any(isinstance(x, ast.Starred) for x in v.elts):
+            v, p = v.elts[p[0]], p[1:]
         at = ws[0][0]
-        e = v
         depth -= 1
+        if p:
+            v2, p2 = _value_at(cfg, fnode, v, at, depth)
+            return v2, p2 + p
+        e = v
     return e, ()
+
+def _assigned_to(n, pred):
+    """values a statement assigns to the targets satisfying pred (parallel
+    assignment aware); None for a value the rule cannot pair up"""
+    out = []
+    if isinstance(n, ast.Assign):
+        for t in n.targets:
+            if pred(t):
+                out.append(n.value)
+            elif isinstance(t, (ast.Tuple, ast.List)):
+                for i, el in enumerate(t.elts):
+                    if pred(el):
+                        if isinstance(n.value, (ast.Tuple, ast.List)) and len(n.value.elts) == len(t.elts):
+                            out.append(n.value.elts[i])
+                        else:
+                            out.append(None)
+    elif isinstance(n, ast.AnnAssign) and pred(n.target):
+        out.append(n.value)
+    elif isinstance(n, ast.AugAssign) and pred(n.target):
+        out.append(None)
+    return out
+
+
+def _sources(cfg, fnode, e, at):
+    """value expressions (followed through single-binding locals) that `e` can denote at node `at`;
+    None stands for a binding the rule cannot see (parameter, unbound)"""
+    if not isinstance(e, ast.Name):
+        return [e]
+    ws, live = _reaching(cfg, fnode, e.id, at)
+    out = [None] if live else []
+    for nid, w in ws:
+        v, p = _bound(w, e.id)
+        if v is None or p:
+            out.append(None)
+        else:
+            out.append(_value_at(cfg, fnode, v, nid)[0])
+    return out
 
 
 def _closure_ref(fnode, used, outer):
@@ -305,7 +348,7 @@ def _e2m(ctx):
     Q.msg_arm = _none_nodes(cfg, subj, False)
     ctx.need(Q.exc_arm and Q.msg_arm, "on_event does not branch on `event.message is None`")
     Q.adds = _adds(cfg, fi.node, Q.old)
-    ctx.floor("add_response sites in on_event", len(Q.adds), 2)
+    ctx.floor("add_response sites in on_event", len(Q.adds), 1)
     Q.exc_reach = cfg.reach(Q.exc_arm, avoid=Q.msg_arm, skip_labels=(), include_src=True)
     Q.msg_reach = cfg.reach(Q.msg_arm, avoid=Q.exc_arm, skip_labels=(), include_src=True)
     Q.adds_exc = [A for A in Q.adds if A.nid in Q.exc_reach]
@@ -338,7 +381,7 @@ def a(ctx):
                 got = None
             ctx.ob("the handler stays registered exactly while responses are not final", got == want, fi, n.ast)
     # exception arm
-    ctx.floor("add_response sites on the exception arm", len(Q.adds_exc), 2)
+    ctx.floor("add_response sites on the exception arm", len(Q.adds_exc), 1)
     for x in Q.exc_arm:
         w = _witness(cfg, {x}, {A.nid for A in Q.adds_exc}, cfg.exit, skip=("exc",))
         ctx.ob("every path taken for an exception event adds a response", w is None, fi, w if w is not None else Q.adds_exc[0].call)
@@ -382,16 +425,15 @@ def a(ctx):
                 okf = okf and _is_bare_500(prog, fi, A.resp)
         ctx.ob("the handler's path sends the bare 5.00 and nothing else", okf and all(cfg.must_pass(h, {A.nid for A in after}) for h in hn), fi, hs[0], construct="except %s" % (stmt_text(hs[0].type) if hs[0].type is not None else ""))
         # a rendering that is None
-        w, wp = cfg.parent.get(id(c)), None
+        w = cfg.parent.get(id(c))
         if isinstance(w, ast.Assign) and len(w.targets) == 1 and isinstance(w.targets[0], ast.Name):
-            var = w.targets[0].id
             wn = _n1(ctx, cfg, w, "rendering")
-            same_var = lambda e, at: isinstance(e, ast.Name) and e.id == var and [x for x, _ in _reaching(cfg, fi.node, var, at)[0]] == [wn]
+            same_var = lambda e, at: isinstance(e, ast.Name) and _value_at(cfg, fi.node, e, at)[0] is c
             isnone = _none_nodes(cfg, same_var, True)
             notnone = _none_nodes(cfg, same_var, False)
-            users = [A for A in Q.adds_exc if isinstance(A.resp, ast.Name) and A.resp.id == var and any(x == wn for x, _ in _reaching(cfg, fi.node, var, A.nid)[0])]
+            users = [A for A in Q.adds_exc if isinstance(A.resp, ast.Name) and any(v_ is c for v_ in _sources(cfg, fi.node, A.resp, A.nid))]
             tested = bool(isnone) and all(A.nid not in cfg.reach({wn}, avoid=isnone | notnone, skip_labels=("exc",)) for A in users)
-            fb = bool(isnone) and all(A.nid not in cfg.reach(isnone, avoid=bare_writes.get(var, set())) for A in users) and cfg.exit not in cfg.reach(isnone, avoid={A.nid for A in Q.adds_exc})
+            fb = bool(isnone) and all(A.nid not in cfg.reach(isnone, avoid=bare_writes.get(A.resp.id, set())) for A in users) and cfg.exit not in cfg.reach(isnone, avoid={A.nid for A in Q.adds_exc})
             ctx.ob("a renderer that produces no message falls back to the bare 5.00 as well", bool(users) and tested and fb, fi, w)
         else:
             ctx.need(False, "to_message() result is not bound to a local")
@@ -409,7 +451,7 @@ def b(ctx):
     Q = _e2m(ctx)
     fi, cfg = Q.fi, Q.cfg
     msgs = [c for c in calls_in(fi.node) if _cls_of(ctx, fi, c.func) == "aiocoap.message.Message"]
-    ctx.floor("Message(...) constructions in on_event", len(msgs), 2)
+    ctx.floor("Message(...) constructions in on_event", len(msgs), 1)
     holders = set()
     for c in msgs:
         ctx.ob("a message built for a failed request is exactly Message(code=5.00): no payload, no option, nothing taken from the exception", _is_bare_500(prog, fi, c), fi, c)
@@ -434,12 +476,7 @@ def b(ctx):
             ctx.ob("the fallback message is not modified after construction", False, fi, n)
     # what each add_response on the exception arm can carry
     for A in Q.adds_exc:
-        srcs = []
-        if isinstance(A.resp, ast.Name):
-            ws, live = _reaching(cfg, fi.node, A.resp.id, A.nid)
-            srcs = [_bound(w, A.resp.id)[0] for _, w in ws] + ([None] if live else [])
-        else:
-            srcs = [A.resp]
+        srcs = _sources(cfg, fi.node, A.resp, A.nid)
         ok = bool(srcs)
         rendered = False
         for v in srcs:
@@ -531,3 +568,592 @@ def c(ctx):
             ms, last = _kw(ev, "message", 0), _kw(ev, "is_last", 2)
             ok = isinstance(ms, ast.Name) and ms.id == rp[0] and isinstance(last, ast.Name) and last.id == rp[1] and not writes_to_name(rf.node, rp[1])
     ctx.ob("add_response emits an event that carries the response and the caller's is_last", ok, rf, evs[0] if evs else rf.node, construct=None if evs else "Pipe.add_response")
+
+
+# ---------------------------------------------------------------------------
+# C09.d
+
+
+@R.clause("C09.d", "Context._render_to_pipe without a site: one final 4.04, then return; with a site: delegation to its render_to_pipe")
+def d(ctx):
+    prog = ctx.prog
+    fi = prog.func("protocol.Context._render_to_pipe")
+    p = params(fi)
+    ctx.need(len(p) == 1 and not writes_to_name(fi.node, p[0]), "Context._render_to_pipe signature changed")
+    cfg = cfg_of(fi)
+    subj = lambda e, at: chain(e) == "self.serversite"
+    nosite = _none_nodes(cfg, subj, True)
+    site = _none_nodes(cfg, subj, False)
+    ctx.need(nosite and site, "_render_to_pipe does not branch on `self.serversite is None`")
+    adds = [A for A in _adds(cfg, fi.node, p[0])]
+    arm = cfg.reach(nosite, avoid=site, include_src=True)
+    mine = [A for A in adds if A.nid in arm]
+    if not ctx.ob("a context without a site answers the request", bool(mine) and all(cfg.must_pass(x, {A.nid for A in mine}) for x in nosite), fi, mine[0].call if mine else fi.node, construct=None if mine else "Context._render_to_pipe"):
+        return
+    for A in mine:
+        ctx.ob("the no-site response is final", A.kind == "final", fi, A.call)
+        v, vp = _value_at(cfg, fi.node, A.resp, A.nid)
+        code = _kw(v, "code") if isinstance(v, ast.Call) and _cls_of(ctx, fi, v.func) == "aiocoap.message.Message" else None
+        cv = _code_value(prog, fi.module, code) if code is not None else None
+        ctx.ob("the no-site response is 4.04 Not Found", cv is not None and cv[1] == _num(RESPONSE_CODES["NOT_FOUND"]), fi, A.call, detail="code %s" % (cv,))
+        ctx.ob("exactly one response is added without a site", not (cfg.reach({A.nid}, skip_labels=("exc",)) & {B.nid for B in adds}), fi, A.call)
+    dels = [c for c, b in find("self.serversite.render_to_pipe($x)", fi.node)]
+    ctx.floor("delegations to the site", len(dels), 1)
+    for c in dels:
+        cn = _n1(ctx, cfg, c, "site delegation")
+        ctx.ob("the site is only consulted when there is one", any(cn in cfg.reach({s}, include_src=True) for s in site) and cn not in arm, fi, c)
+        ctx.ob("the site renders into the request's pipe", isinstance(c.args[0], ast.Name) and c.args[0].id == p[0], fi, c)
+        par = cfg.parent.get(id(c))
+        ctx.ob("the site's rendering is awaited inside the render task", isinstance(par, ast.Await), fi, c)
+    ctx.ob("with a site every normal path delegates to it", all(cfg.must_pass(s, {i for c in dels for i in _rn(cfg, c)}) for s in site), fi, dels[0])
+
+
+# ---------------------------------------------------------------------------
+# C09.e
+
+
+def _raise_class(ctx, fi, r):
+    e = r.exc
+    if isinstance(e, ast.Call):
+        e = e.func
+    return _cls_of(ctx, fi, e) if e is not None else None
+
+
+@R.clause("C09.e", "Resource.render: non-request code -> UnsupportedMethod, missing render_<method> -> UnallowedMethod (both 4.05); default code table applied iff response.code is None; no_response copied iff unset")
+def e(ctx):
+    prog = ctx.prog
+    fi = prog.func("resource.Resource.render")
+    p = params(fi)
+    ctx.need(len(p) == 1 and not writes_to_name(fi.node, p[0]), "Resource.render signature changed")
+    req = p[0]
+    cfg = cfg_of(fi)
+    c405 = _num(RESPONSE_CODES["METHOD_NOT_ALLOWED"])
+    raises = [n for n in walk_no_nested(fi.node) if isinstance(n, ast.Raise)]
+    isreq = "%s.code.is_request()" % req
+    # (1) not a request code
+    r1 = [r for r in raises if _rn(cfg, r) and guarded_by(cfg, _rn(cfg, r)[0], isreq, False)]
+    if ctx.ob("a message whose code is not a request code is rejected", bool(r1), fi, r1[0] if r1 else fi.node, construct=None if r1 else "Resource.render"):
+        for r in r1:
+            q = _raise_class(ctx, fi, r)
+            ctx.ob("the rejection of a non-request code is error.UnsupportedMethod", q == "aiocoap.error.UnsupportedMethod", fi, r, detail="raises %s" % q)
+            ctx.ob("the rejection of a non-request code renders as 4.05", q is not None and q in prog.classes and _class_code(prog, q) == c405 and prog.is_subclass(q, "aiocoap.error.RenderableError"), fi, r)
+    # (2) handler lookup
+    hcalls = []
+    for aw in walk_no_nested(fi.node):
+        if isinstance(aw, ast.Await) and isinstance(aw.value, ast.Call) and isinstance(aw.value.func, ast.Name) and len(aw.value.args) == 1 and isinstance(aw.value.args[0], ast.Name) and aw.value.args[0].id == req:
+            cn = _rn(cfg, aw)
+            if cn:
+                v, vp = _value_at(cfg, fi.node, aw.value.func, cn[0])
+                if match("getattr(self, $n, $d)", v) is not None:
+                    hcalls.append((aw, cn[0], aw.value.func.id, v))
+    ctx.floor("handler invocations in Resource.render", len(hcalls), 1)
+    for aw, cn, hname, g in hcalls:
+        m = match("getattr(self, $n, $d)", g)
+        nm = m["n"]
+        ok_name = False
+        mm = match('"render_%s" % $x', nm)
+        if mm is not None:
+            ok_name = match("str(%s.code).lower()" % req, mm["x"]) is not None
+        elif isinstance(nm, ast.JoinedStr):
+            parts = nm.values
+            ok_name = len(parts) == 2 and isinstance(parts[0], ast.Constant) and parts[0].value == "render_" and isinstance(parts[1], ast.FormattedValue) and match("str(%s.code).lower()" % req, parts[1].value) is not None
+        else:
+            mm = match('"render_" + $x', nm)
+            ok_name = mm is not None and match("str(%s.code).lower()" % req, mm["x"]) is not None
+        ctx.ob("the handler is looked up as render_<lower-case method name> of the request", ok_name and isinstance(m["d"], ast.Constant) and m["d"].value is None, fi, g)
+        ctx.ob("the handler runs only for request codes", guarded_by(cfg, cn, isreq, True), fi, aw)
+        truthy = [(e_, pol) for e_, pol, g_ in cfg.guards(cn) if isinstance(e_, ast.Name) and e_.id == hname and pol] + \
+                 [1 for e_, pol, g_ in cfg.guards(cn) if isinstance(e_, ast.Compare) and isinstance(e_.left, ast.Name) and e_.left.id == hname and isinstance(e_.comparators[0], ast.Constant)
+                  and e_.comparators[0].value is None and ((isinstance(e_.ops[0], ast.IsNot) and pol) or (isinstance(e_.ops[0], ast.Is) and not pol))]
+        ctx.ob("the handler is only invoked when the resource has one", bool(truthy), fi, aw)
+        r2 = []
+        for r in raises:
+            for i in _rn(cfg, r):
+                for e_, pol, g_ in cfg.guards(i):
+                    if (isinstance(e_, ast.Name) and e_.id == hname and not pol) or (isinstance(e_, ast.Compare) and isinstance(e_.left, ast.Name) and e_.left.id == hname and isinstance(e_.comparators[0], ast.Constant)
+                                                                                     and e_.comparators[0].value is None and ((isinstance(e_.ops[0], ast.Is) and pol) or (isinstance(e_.ops[0], ast.IsNot) and not pol))):
+                        r2.append(r)
+        if ctx.ob("a method the resource does not implement is rejected", bool(r2), fi, r2[0] if r2 else g):
+            for r in r2:
+                q = _raise_class(ctx, fi, r)
+                ctx.ob("the rejection of an unimplemented method is error.UnallowedMethod", q == "aiocoap.error.UnallowedMethod", fi, r, detail="raises %s" % q)
+                ctx.ob("the rejection of an unimplemented method renders as 4.05", q is not None and q in prog.classes and _class_code(prog, q) == c405 and prog.is_subclass(q, "aiocoap.error.RenderableError"), fi, r)
+    # (3) the returned response and its default code
+    rets = [n for n in walk_no_nested(fi.node) if isinstance(n, ast.Return) and n.value is not None]
+    ctx.need(len(rets) == 1 and isinstance(rets[0].value, ast.Name), "Resource.render does not return a single local")
+    resp = rets[0].value.id
+    rn_ = _n1(ctx, cfg, rets[0], "return")
+    srcs = [_bound(w, resp)[0] for _, w in _reaching(cfg, fi.node, resp, rn_)[0]]
+    ctx.ob("the value returned is what the handler returned (or the deprecated NoResponse stand-in)", any(isinstance(v, ast.Await) and any(v is h[0] for h in hcalls) for v in srcs)
+           and all((isinstance(v, ast.Await) and any(v is h[0] for h in hcalls)) or (isinstance(v, ast.Call) and _cls_of(ctx, fi, v.func) == "aiocoap.message.Message") for v in srcs), fi, rets[0])
+    code_none_t = _none_nodes(cfg, lambda e_, at: chain(e_) == resp + ".code", True)
+    code_stores = [n for n in walk_no_nested(fi.node) if isinstance(n, ast.Assign) and any(chain(t) == resp + ".code" for t in n.targets)]
+    ctx.floor("stores to response.code", len(code_stores), 1)
+    leaves = []  # (write stmt, node id, value expr)
+    for st in code_stores:
+        sid = _n1(ctx, cfg, st, "code store")
+        ctx.ob("a code chosen by the handler is never overwritten (default applied only if response.code is None)", any(t in cfg.dominators(sid) for t in code_none_t), fi, st)
+        if isinstance(st.value, ast.Name) and writes_to_name(fi.node, st.value.id):
+            ws, live = _reaching(cfg, fi.node, st.value.id, sid)
+            ctx.ob("the default code is bound on every path to its use", not live, fi, st)
+            for x, w in ws:
+                leaves.append((w, x, _bound(w, st.value.id)[0]))
+        else:
+            leaves.append((st, sid, st.value))
+    stn = {i for st in code_stores for i in _rn(cfg, st)}
+    ctx.ob("a response without a code always gets a default code", bool(code_none_t) and all(cfg.must_pass(t, stn, to=rn_) for t in code_none_t), fi, code_stores[0])
+    table = {}
+    for w, x, v in leaves:
+        cv = _code_value(prog, fi.module, v) if v is not None else None
+        ctx.need(cv is not None, "default code %s is not a Code constant" % (stmt_text(v) if v is not None else "?"))
+        alive, others = mtype_values([(e_, pol) for e_, pol, g_ in cfg.guards(x)], "%s.code" % req, tuple(METHODS))
+        for mth in alive:
+            table.setdefault(mth, []).append((cv, w))
+    for mth, want in DEFAULT_CODE.items():
+        got = table.get(mth, [])
+        vals = sorted({cv[1] for cv, w in got})
+        ctx.ob("default response code for %s is %d.%02d" % (mth, want[0], want[1]), vals == [_num(want)], fi, got[0][1] if got else code_stores[0], detail="assigned: %s" % [cv[0] for cv, w in got],
+               construct="default code for %s" % mth)
+    # method constants used in the guards must denote the RFC 7252 / 8132 numbers
+    ci = prog.cls("numbers.codes.Code")
+    for mth, num in METHODS.items():
+        try:
+            val = norm.consteval(ci.attrs[mth]) if mth in ci.attrs else None
+        except norm.NormError:
+            val = None
+        ctx.ob("Code.%s == %d" % (mth, num), val == num, None, None, construct="Code.%s" % mth, detail="value %r" % val)
+    # (4) no_response
+    nr = [n for n in walk_no_nested(fi.node) if isinstance(n, ast.Assign) and any(chain(t) == resp + ".opt.no_response" for t in n.targets)]
+    if ctx.ob("the request's No-Response option is copied to the response", bool(nr), fi, nr[0] if nr else rets[0]):
+        unset = _none_nodes(cfg, lambda e_, at: chain(e_) == resp + ".opt.no_response", True)
+        for n in nr:
+            nid = _n1(ctx, cfg, n, "no_response store")
+            ctx.ob("the copied value is the request's no_response option", chain(n.value) == req + ".opt.no_response", fi, n)
+            ctx.ob("a no_response value set by the handler is kept (copy only if unset)", any(t in cfg.dominators(nid) for t in unset), fi, n)
+        ctx.ob("an unset no_response is always filled from the request", bool(unset) and all(cfg.must_pass(t, {i for n in nr for i in _rn(cfg, n)}, to=rn_) for t in unset), fi, nr[0])
+
+
+# ---------------------------------------------------------------------------
+# C09.f
+
+
+FALLBACKS = {"needs_blockwise_assembly": "returns True (assemble, so that the later render answers 4.04 on the complete request)",
+             "add_observation": "returns without accepting the observation"}
+
+
+@R.clause("C09.f", "every call of Site._find_child_and_pathstripped_message handles KeyError by raising a 4.04 error (render paths) or by the documented fallback; the function raises nothing but KeyError; _expand_upa raises nothing but BadOption (4.02)")
+def f(ctx):
+    prog = ctx.prog
+    target = prog.func("resource.Site._find_child_and_pathstripped_message")
+    sites = []
+    for fi in prog.funcs.values():
+        for c in calls_in(fi.node):
+            if isinstance(c.func, ast.Attribute) and c.func.attr == target.name:
+                sites.append((fi, c))
+    ctx.floor("call sites of _find_child_and_pathstripped_message", len(sites), 4)
+    c404 = _num(RESPONSE_CODES["NOT_FOUND"])
+    for fi, c in sites:
+        cfg = cfg_of(fi)
+        tr = _enclosing_try(cfg, c, fi.node)
+        hs = [h for h in tr.handlers if _handler_catches(prog, fi, h, "KeyError")] if tr is not None else []
+        if not ctx.ob("an unknown path (KeyError) is handled at the call site", bool(hs), fi, c):
+            continue
+        h = hs[0]  # the first matching handler takes the exception
+        hn = _rn(cfg, h)
+        inside = cfg.reach(set(hn), skip_labels=("exc",), include_src=True)
+        rs = [n for n in cfg.nodes if n.kind == "raise" and n.id in inside and any(n.ast is x for x in ast.walk(h))]
+        falls = cfg.exit in inside
+        if fi.name in FALLBACKS and not rs:
+            if fi.name == "needs_blockwise_assembly":
+                rets = [n for n in cfg.nodes if n.kind == "return" and n.id in inside]
+                ok = bool(rets) and all(isinstance(n.ast.value, ast.Constant) and n.ast.value.value is True for n in rets) and all(cfg.must_pass(i, {n.id for n in rets}) for i in hn)
+            else:
+                calls = [x for x in ast.walk(h) if isinstance(x, ast.Call) and not is_log_call(x)]
+                rets = [n for n in cfg.nodes if n.kind == "return" and n.id in inside and n.ast.value is not None and not (isinstance(n.ast.value, ast.Constant) and n.ast.value.value is None)]
+                ok = not calls and not rets and falls
+            ctx.ob("documented fallback for an unknown path in %s: %s" % (fi.name, FALLBACKS[fi.name]), ok, fi, h, construct="except KeyError in %s" % fi.name)
+            continue
+        okc = bool(rs) and not falls
+        for n in rs:
+            q = _raise_class(ctx, fi, n.ast)
+            okc = okc and q is not None and q in prog.classes and prog.is_subclass(q, "aiocoap.error.RenderableError") and _class_code(prog, q) == c404
+        ctx.ob("an unknown path is answered with a 4.04 error on every path of the handler", okc, fi, rs[0].ast if rs else h, construct=None if rs else "except KeyError in %s" % fi.name)
+        # the child is only used when the lookup succeeded
+    EA = EscapeAnalysis(prog)
+    esc = EA.escapes(target, selfcls="aiocoap.resource.Site")
+    bad = sorted({e_.cls for e_ in esc} - {"KeyError"})
+    ctx.ob("_find_child_and_pathstripped_message raises nothing but KeyError", not bad and not EA.unresolved, target, target.node, construct="escape set of _find_child_and_pathstripped_message", detail="escapes: %s; unresolved: %s" % (sorted({e_.cls for e_ in esc}), EA.unresolved))
+    ux = prog.func("resource._expand_upa")
+    EA2 = EscapeAnalysis(prog)
+    esc = EA2.escapes(ux)
+    classes = sorted({e_.cls for e_ in esc})
+    ctx.ob("_expand_upa raises nothing but error.BadOption", classes in ([], ["aiocoap.error.BadOption"]) and not EA2.unresolved, ux, ux.node, construct="escape set of _expand_upa", detail="escapes: %s; unresolved: %s" % (classes, EA2.unresolved))
+    # the escape analysis' implicit-raiser table only knows dict-typed self.<field>[k]; table lookups on a
+    # module-level mapping are covered here: each must sit in a try whose handler takes KeyError
+    ucfg = cfg_of(ux)
+    locs = set(params(ux, skip_self=False)) | {n.id for n in walk_no_nested(ux.node) if isinstance(n, ast.Name) and isinstance(n.ctx, ast.Store)}
+    for sub in walk_no_nested(ux.node):
+        if isinstance(sub, ast.Subscript) and isinstance(sub.ctx, ast.Load) and chain(sub.value) and chain(sub.value).split(".")[0] not in locs:
+            tr = _enclosing_try(ucfg, sub, ux.node)
+            hs = [h_ for h_ in tr.handlers if _handler_catches(prog, ux, h_, "KeyError")] if tr is not None else []
+            ctx.ob("a failed table lookup in _expand_upa (KeyError) is converted, not propagated", bool(hs), ux, sub)
+    ctx.ob("error.BadOption renders as 4.02", _class_code(prog, "aiocoap.error.BadOption") == _num(RESPONSE_CODES["BAD_OPTION"]) and prog.is_subclass("aiocoap.error.BadOption", "aiocoap.error.RenderableError"), None, None, construct="class error.BadOption")
+    ctx.extra["escape_implicit_sites"] = EA.implicit_sites + EA2.implicit_sites
+    # Site.render_to_pipe expands the abbreviation before the lookup and delegates to the child
+    sf = prog.func("resource.Site.render_to_pipe")
+    sp = params(sf)
+    scfg = cfg_of(sf)
+    ex = [c for c, b in find("_expand_upa($x)", sf.node)]
+    lk = [c for fi, c in sites if fi is sf]
+    ctx.ob("Site.render_to_pipe expands Uri-Path-Abbrev before the path lookup", bool(ex) and bool(lk) and all(any(scfg.dominates(i, _rn(scfg, l)[0]) for e_ in ex for i in _rn(scfg, e_)) for l in lk), sf, ex[0] if ex else sf.node, construct=None if ex else "Site.render_to_pipe")
+    dl = [n for n in walk_no_nested(sf.node) if isinstance(n, ast.Await) and isinstance(n.value, ast.Call) and isinstance(n.value.func, ast.Attribute) and n.value.func.attr == "render_to_pipe"]
+    okd = bool(dl) and bool(lk)
+    for aw in dl:
+        an = _n1(ctx, scfg, aw, "child delegation")
+        recv, rp = _value_at(scfg, sf.node, aw.value.func.value, an)
+        okd = okd and rp == (0,) and any(recv is l for l in lk) and len(aw.value.args) == 1 and isinstance(aw.value.args[0], ast.Name) and aw.value.args[0].id == sp[0]
+    ctx.ob("a known path is delegated to the child found by the lookup, on the same pipe", okd, sf, dl[0] if dl else sf.node, construct=None if dl else "Site.render_to_pipe")
+
+
+# ---------------------------------------------------------------------------
+# C09.g
+
+
+@R.clause("C09.g", "interfaces.Resource._render_to_pipe adds exactly one response per normal path, final, and it is the result of rendering")
+def g(ctx):
+    prog = ctx.prog
+    fi = prog.func("interfaces.Resource._render_to_pipe")
+    p = params(fi)
+    ctx.need(len(p) == 1 and not writes_to_name(fi.node, p[0]), "Resource._render_to_pipe signature changed")
+    cfg = cfg_of(fi)
+    adds = _adds(cfg, fi.node, p[0])
+    ctx.floor("add_response sites in Resource._render_to_pipe", len(adds), 1)
+    addn = {A.nid for A in adds}
+    w = _witness(cfg, {cfg.entry}, addn, cfg.exit, skip=("exc",))
+    ctx.ob("every normal path of the plain render adds a response", w is None, fi, w if w is not None else adds[0].call)
+    for A in adds:
+        ctx.ob("the response of a plain render is final", A.kind == "final", fi, A.call)
+        ctx.ob("a plain render adds at most one response", not (cfg.reach({A.nid}, skip_labels=("exc",)) & addn), fi, A.call)
+        srcs = []
+        if isinstance(A.resp, ast.Name):
+            ws, live = _reaching(cfg, fi.node, A.resp.id, A.nid)
+            srcs = [_bound(w_, A.resp.id) for _, w_ in ws] + ([(None, None)] if live else [])
+        else:
+            srcs = [(A.resp, ())]
+        ok = bool(srcs)
+        for v, pth in srcs:
+            good = False
+            if v is not None and pth == () and isinstance(v, ast.Await) and isinstance(v.value, ast.Call):
+                call = v.value
+                if match("self.render($r)", call) is not None:
+                    good = True
+                else:
+                    for a_ in list(call.args) + [k.value for k in call.keywords]:
+                        if isinstance(a_, ast.Lambda) and any(match("self.render($r)", x) is not None for x in ast.walk(a_.body)):
+                            good = True
+            ok = ok and good
+        ctx.ob("the response added is the outcome of self.render (directly or through the Block2 cache)", ok, fi, A.call)
+
+
+# ---------------------------------------------------------------------------
+# C09.h
+
+
+def _truth_nodes(cfg, L, truth):
+    while isinstance(L, ast.UnaryOp) and isinstance(L.op, ast.Not):
+        L = L.operand
+        truth = not truth
+    out = set()
+    for n in cfg.nodes:
+        if n.kind in ("T", "F") and cfg.is_reachable(n.id) and n.ast is not None and same(n.ast, L):
+            if (n.kind == "T") == truth:
+                out.add(n.id)
+    return out
+
+
+@R.clause("C09.h", "TokenManager.process_request.on_event stamps the request's token and remote.as_response_address() on every outgoing message before send_message, sends every response event, and stays registered exactly while events are not final")
+def h(ctx):
+    prog = ctx.prog
+    outer = prog.func("tokenmanager.TokenManager.process_request")
+    fi = prog.func("tokenmanager.TokenManager.process_request.<locals>.on_event")
+    op, ep = params(outer), params(fi, skip_self=False)
+    ctx.need(len(op) == 1 and len(ep) == 1, "process_request / on_event signature changed")
+    req, ev = op[0], ep[0]
+    ctx.need(not writes_to_name(outer.node, req) and _closure_ref(fi.node, req, req) and not writes_to_name(fi.node, ev), "request or event rebound")
+    cfg = cfg_of(fi)
+    sends = [c for c, _ in find("self.token_interface.send_message($*a, $**k)", fi.node)]
+    ctx.floor("send_message calls in on_event", len(sends), 1)
+    is_msg = lambda e_, at: chain(_value_at(cfg, fi.node, e_, at)[0]) == ev + ".message"
+    present = _none_nodes(cfg, is_msg, False)
+    absent = _none_nodes(cfg, is_msg, True)
+    ctx.need(present and absent, "on_event does not branch on `ev.message is None`")
+    sn = set()
+    for c in sends:
+        cn = _n1(ctx, cfg, c, "send_message")
+        sn.add(cn)
+        m = _kw(c, "message", 0)
+        ctx.need(isinstance(m, ast.Name), "message argument is not a local")
+        ctx.ob("what is sent is the event's message", is_msg(m, cn) and any(t in cfg.dominators(cn) for t in present), fi, c)
+        mw = [x for x, _ in _reaching(cfg, fi.node, m.id, cn)[0]]
+        for attr, want, text in (("token", "%s.token" % req, "the request's token"), ("remote", "%s.remote.as_response_address()" % req, "the request's remote as response address")):
+            sts = [n for n in walk_no_nested(fi.node) if isinstance(n, (ast.Assign, ast.AugAssign, ast.AnnAssign)) and any(chain(t) == "%s.%s" % (m.id, attr) for t in (n.targets if isinstance(n, ast.Assign) else [n.target]))]
+            good = [n for n in sts if isinstance(n, ast.Assign) and match(want, n.value) is not None and any(cfg.dominates(i, cn) for i in _rn(cfg, n))
+                    and all([x for x, _ in _reaching(cfg, fi.node, m.id, i)[0]] == mw for i in _rn(cfg, n))]
+            bad = [n for n in sts if n not in good and any(cn in cfg.reach({i}) for i in _rn(cfg, n))]
+            late = [n for n in bad if any(cfg.dominates(g_i, i) for g_ in good for g_i in _rn(cfg, g_) for i in _rn(cfg, n))]
+            ctx.ob("every outgoing response carries %s" % text, bool(good) and not [n for n in bad if n in late or not good], fi, c if not bad else bad[0],
+                   detail="%d dominating store(s) of .%s" % (len(good), attr))
+    ctx.ob("every response event is handed to the token interface", all(cfg.must_pass(t, sn) for t in present), fi, sends[0])
+    # registration discipline
+    last = ast.parse("%s.is_last" % ev, mode="eval").body
+    notlast, islast = _truth_nodes(cfg, last, False), _truth_nodes(cfg, last, True)
+    rets = [n for n in cfg.nodes if n.kind == "return" and cfg.is_reachable(n.id)]
+    want = Normalizer().dnf(ast.parse("not %s.is_last" % ev, mode="eval").body)
+    exprs = []
+    for n in rets:
+        v = n.ast.value
+        if v is None or isinstance(v, ast.Constant):
+            continue
+        try:
+            exprs.append((n, Normalizer(env=norm.local_env(fi.node)).dnf(v) == want))
+        except norm.NormError:
+            exprs.append((n, False))
+    truthy = {n.id for n in rets if isinstance(n.ast.value, ast.Constant) and n.ast.value.value}
+    computed = {n.id for n, ok in exprs if ok}
+    for n, ok in exprs:
+        ctx.ob("a computed return value of the handler is `not is_last`", ok, fi, n.ast)
+    for n in rets:
+        if n.id in truthy:
+            ctx.ob("the handler asks to stay registered only for non-final events", any(t in cfg.dominators(n.id) for t in notlast), fi, n.ast)
+    keep = truthy | computed
+    if notlast:
+        ok_keep = bool(keep) and all(cfg.must_pass(t, keep) for t in notlast)
+    else:
+        ok_keep = bool(computed) and cfg.must_pass(cfg.entry, computed)
+    anchor = [n.ast for n in rets if n.id in keep]
+    ctx.ob("after a non-final event (a notification) the handler stays registered", ok_keep, fi, anchor[0] if anchor else sends[0])
+    # and it is this handler that is registered on the pipe that gets rendered (see C08.e for the stopper)
+    ocfg = cfg_of(outer)
+    regs = [c for c, b in find("$p.on_event($h)", outer.node) if isinstance(b["h"], ast.Name) and b["h"].id == fi.name]
+    ctx.ob("the handler is registered on the request's pipe on every path", bool(regs) and ocfg.must_pass(ocfg.entry, {i for c in regs for i in _rn(ocfg, c)}), outer, regs[0] if regs else outer.node, construct=None if regs else "process_request")
+
+
+# ---------------------------------------------------------------------------
+# C09.i
+
+
+def _ended_nodes(cfg, ended):
+    out = set()
+    for n in cfg.nodes:
+        e_ = n.ast
+        if n.kind in ("T", "F") and cfg.is_reachable(n.id) and isinstance(e_, ast.Compare) and len(e_.ops) == 1 and chain(e_.left) == "self._event_callbacks" \
+                and isinstance(e_.comparators[0], ast.Constant) and e_.comparators[0].value is False and isinstance(e_.ops[0], (ast.Is, ast.IsNot, ast.Eq, ast.NotEq)):
+            val = (n.kind == "T") == isinstance(e_.ops[0], (ast.Is, ast.Eq))
+            if val == ended:
+                out.add(n.id)
+    return out
+
+
+@R.clause("C09.i", "Pipe._add_event delivers nothing once _event_callbacks is False; _end sets it before delivering the final event; handlers that decline are removed and the pipe ends when no interest remains")
+def i(ctx):
+    prog = ctx.prog
+    fi = prog.func("pipe.Pipe._add_event")
+    p = params(fi)
+    ctx.need(len(p) == 1 and not writes_to_name(fi.node, p[0]), "_add_event signature changed")
+    cfg = cfg_of(fi)
+    deliveries = [c for c in calls_in(fi.node) if isinstance(c.func, ast.Name) and len(c.args) == 1 and isinstance(c.args[0], ast.Name) and c.args[0].id == p[0] and not c.keywords]
+    ctx.floor("callback invocations in _add_event", len(deliveries), 1)
+    alive, ended = _ended_nodes(cfg, False), _ended_nodes(cfg, True)
+    dn = {j for c in deliveries for j in _rn(cfg, c)}
+    for c in deliveries:
+        cn = _n1(ctx, cfg, c, "delivery")
+        ctx.ob("an event is delivered only while the pipe has not ended", any(t in cfg.dominators(cn) for t in alive), fi, c)
+    top = {t for t in ended if not any(d in cfg.dominators(t) for d in dn)}
+    ends = {j for c, _ in find("self._end()", fi.node) for j in _rn(cfg, c)}
+    ctx.ob("an event added after the end reaches no callback and ends nothing", bool(top) and not (cfg.reach(top) & (dn | ends)), fi, deliveries[0], construct="if self._event_callbacks is False: ... return")
+    # declining handlers are removed
+    rem = [n for k, n in stores_to(fi.node, "self._event_callbacks", nested=False) if k == "remove"]
+    okr = False
+    for n in rem:
+        nid = _n1(ctx, cfg, n, "removal")
+        for e_, pol, g_ in cfg.guards(nid):
+            if isinstance(e_, ast.Name) and not pol:
+                v, vp = _value_at(cfg, fi.node, e_, g_)
+                if any(v is c for c in deliveries):
+                    okr = True
+    ctx.ob("a handler that returns a false value is removed from the callbacks", okr, fi, rem[0] if rem else deliveries[0])
+    # no interest left -> end
+    oke = False
+    endcalls = [c for c, _ in find("self._end()", fi.node)]
+    def res(e_, at):
+        return _value_at(cfg, fi.node, e_, at)[0] if isinstance(e_, ast.Name) else e_
+    for c in endcalls:
+        cn = _n1(ctx, cfg, c, "_end call")
+        gs = [(res(e_, g_), pol) for e_, pol, g_ in cfg.guards(cn) if not isinstance(e_, ast.stmt)]
+        if any(match("self._any_interest()", e_) is not None and not pol for e_, pol in gs) and any(t in cfg.dominators(cn) for t in alive):
+            tests = {n.id for n in cfg.nodes if n.kind == "test" and cfg.is_reachable(n.id) and match("self._any_interest()", res(n.ast, n.id)) is not None}
+            loopF = {n.id for n in cfg.nodes if n.kind == "F" and isinstance(n.ast, ast.For) and cfg.is_reachable(n.id)}
+            oke = bool(loopF) and all(cfg.must_pass(f_, tests) for f_ in loopF)
+    ctx.ob("after delivery the pipe ends as soon as no interested handler remains", oke, fi, endcalls[0] if endcalls else deliveries[0])
+    # _end
+    ef = prog.func("pipe.Pipe._end")
+    ecfg = cfg_of(ef)
+    is_field = lambda t: isinstance(t, ast.Attribute) and t.attr == "_event_callbacks"
+    is_false = lambda v_: isinstance(v_, ast.Constant) and v_.value is False
+    sets = [n for k, n in stores_to(ef.node, "self._event_callbacks", nested=False) if k == "assign" and any(is_false(v_) for v_ in _assigned_to(n, is_field))]
+    cbs = [c for c in calls_in(ef.node) if isinstance(c.func, ast.Name) and len(c.args) == 1 and not is_log_call(c) and chain(c.func) not in ("list", "tuple")]
+    ctx.floor("callback invocations in _end", len(cbs), 1)
+    sn = {j for n in sets for j in _rn(ecfg, n)}
+    ctx.ob("_end marks the pipe as ended before it delivers the final event (re-entrant adds are discarded)", bool(sn) and all(any(ecfg.dominates(s, j) for s in sn) for c in cbs for j in _rn(ecfg, c)), ef, sets[0] if sets else cbs[0])
+    ctx.ob("_end marks the pipe as ended on every path", bool(sn) and ecfg.must_pass(ecfg.entry, sn), ef, sets[0] if sets else cbs[0])
+    writers = field_writers(prog, "_event_callbacks", modules=["aiocoap.pipe"])
+    falsers = [(f_, n) for f_, hits in writers.items() for k, n in hits if k == "assign" and any(is_false(v_) for v_ in _assigned_to(n, is_field))]
+    ctx.ob("only _end marks a pipe as ended", all(f_ == ef.short for f_, n in falsers) and bool(falsers), ef, sets[0] if sets else ef.node)
+    revive = [(f_, n) for f_, hits in writers.items() for k, n in hits if k == "assign" and f_ not in (ef.short, "pipe.Pipe.__init__", "pipe.Pipe._unregister_on_event")]
+    for f_, n in revive:
+        ctx.ob("an ended pipe is never revived", False, prog.func(f_), n)
+    uf = prog.func("pipe.Pipe._unregister_on_event")
+    ucfg = cfg_of(uf)
+    ualive = _ended_nodes(ucfg, False)
+    for k, n in stores_to(uf.node, "self._event_callbacks", nested=False):
+        if k == "assign":
+            ctx.ob("unregistering a handler does not revive an ended pipe", any(t in ucfg.dominators(j) for t in ualive for j in _rn(ucfg, n)), uf, n)
+
+
+# ---------------------------------------------------------------------------
+# C09.j
+
+
+@R.clause("C09.j", "ConstructionRenderableError.to_message builds Message(code=self.code, payload=self.message.encode('utf8')); every error class binds the response code its name denotes; the Code enum agrees with the RFC registries")
+def j(ctx):
+    prog = ctx.prog
+    base = "aiocoap.error.ConstructionRenderableError"
+    tm = prog.func("error.ConstructionRenderableError.to_message")
+    cfg = cfg_of(tm)
+    rets = [n for n in walk_no_nested(tm.node) if isinstance(n, ast.Return)]
+    ctx.need(len(rets) == 1 and rets[0].value is not None, "to_message has not exactly one return")
+    v, vp = _value_at(cfg, tm.node, rets[0].value, _n1(ctx, cfg, rets[0], "return"))
+    okm = not vp and isinstance(v, ast.Call) and _cls_of(ctx, tm, v.func) == "aiocoap.message.Message" and not v.args and sorted(k.arg or "**" for k in v.keywords) == ["code", "payload"]
+    ctx.ob("to_message builds a Message from code and payload only", okm, tm, rets[0])
+    if okm:
+        rid = _n1(ctx, cfg, rets[0], "return")
+        ctx.ob("the message's code is the class/instance attribute `code`", chain(_value_at(cfg, tm.node, _kw(v, "code"), rid)[0]) == "self.code", tm, rets[0])
+        pm = match("self.message.encode($*a)", _value_at(cfg, tm.node, _kw(v, "payload"), rid)[0])
+        enc = None
+        if pm is not None:
+            enc = "utf-8" if not pm["a"] else (pm["a"][0].value if len(pm["a"]) == 1 and isinstance(pm["a"][0], ast.Constant) else None)
+        ctx.ob("the message's payload is the UTF-8 encoding of the attribute `message`", isinstance(enc, str) and enc.lower().replace("-", "").replace("_", "") == "utf8", tm, rets[0])
+    bci = prog.cls("error.ConstructionRenderableError")
+    ctx.ob("the default code of a ConstructionRenderableError is 5.00", _class_code(prog, base) == _num(RESPONSE_CODES["INTERNAL_SERVER_ERROR"]) and "code" in bci.attrs, None, None, construct="ConstructionRenderableError.code")
+    ctx.ob("the default diagnostic payload is empty", "message" in bci.attrs and isinstance(bci.attrs["message"], ast.Constant) and bci.attrs["message"].value == "", None, None, construct="ConstructionRenderableError.message")
+    init = bci.methods.get("__init__")
+    if init is not None:
+        ip = params(init)
+        sts = [n for k, n in stores_to(init.node, "self.message", nested=False) if k == "assign"]
+        ctx.ob("a diagnostic passed to the constructor becomes the payload text", bool(ip) and any(isinstance(n, ast.Assign) and isinstance(n.value, ast.Name) and n.value.id == ip[0] for n in sts) and not stores_to(init.node, "self.code", nested=False), init, sts[0] if sts else init.node,
+               construct=None if sts else "ConstructionRenderableError.__init__")
+    # the Code enum against the registries
+    cci = prog.cls("numbers.codes.Code")
+    for name, cd in sorted(RESPONSE_CODES.items()):
+        try:
+            val = norm.consteval(cci.attrs[name]) if name in cci.attrs else None
+        except norm.NormError:
+            val = None
+        ctx.ob("Code.%s == %d.%02d" % (name, cd[0], cd[1]), val == _num(cd), None, None, construct="Code.%s" % name, detail="value %r" % val)
+    # one class per error code, bound to the code its name denotes
+    n_err = 0
+    for name, cd in sorted(RESPONSE_CODES.items()):
+        if cd[0] < 4:
+            continue
+        cn = _camel(name)
+        q = "aiocoap.error." + cn
+        ci = prog.classes.get(q)
+        if not ctx.ob("error.%s exists and is a ConstructionRenderableError" % cn, ci is not None and prog.is_subclass(q, base), None, None, construct="class error.%s" % cn):
+            continue
+        n_err += 1
+        cv = _code_value(prog, ci.module, ci.attrs["code"]) if "code" in ci.attrs else None
+        ctx.ob("error.%s binds code %d.%02d" % (cn, cd[0], cd[1]), cv is not None and cv[1] == _num(cd) and cv[0] == name, None, None, construct="error.%s.code" % cn, detail="bound to %s" % (cv,))
+    ctx.floor("registry-named error classes", n_err, 21)
+    for cn, cd in sorted(DERIVED_ERRORS.items()):
+        q = "aiocoap.error." + cn
+        ctx.need(q in prog.classes, "anchor class error.%s missing" % cn)
+        ctx.ob("error.%s renders as %d.%02d" % (cn, cd[0], cd[1]), prog.is_subclass(q, base) and _class_code(prog, q) == _num(cd), None, None, construct="error.%s" % cn, detail="code value %r" % _class_code(prog, q))
+    # homonyms elsewhere in the package
+    byname = {_camel(n): cd for n, cd in RESPONSE_CODES.items() if cd[0] >= 4}
+    for q in sorted(prog.subclasses(base)):
+        ci = prog.classes[q]
+        short = q.rsplit(".", 1)[1]
+        if q.startswith("aiocoap.error.") or short not in byname:
+            continue
+        ctx.ob("%s binds the code its name denotes" % q[len("aiocoap."):], _class_code(prog, q) == _num(byname[short]), None, None, construct="%s.code" % q[len("aiocoap."):])
+    # no subclass in error.py overrides to_message or code assignment dynamically
+    for q in sorted(prog.subclasses(base)):
+        ci = prog.classes[q]
+        if q.startswith("aiocoap.error.") and q != base:
+            ctx.ob("error.%s uses the common renderer" % q.rsplit(".", 1)[1], "to_message" not in ci.methods, None, None, construct="error.%s.to_message" % q.rsplit(".", 1)[1])
+
+
+# ---------------------------------------------------------------------------
+# seeded faults (sensitivity self-test)
+F_PIPE = "aiocoap/pipe.py"
+F_PROTO = "aiocoap/protocol.py"
+F_RES = "aiocoap/resource.py"
+F_IF = "aiocoap/interfaces.py"
+F_ERR = "aiocoap/error.py"
+F_CODES = "aiocoap/numbers/codes.py"
+F_TM = "aiocoap/tokenmanager.py"
+
+R.seed("C09.a", F_PIPE, "            old_pr.add_response(msg, is_last=True)\n", "            old_pr.add_response(msg, is_last=False)\n", "error response not final")
+R.seed("C09.a", F_PIPE, "            old_pr.add_response(Message(code=INTERNAL_SERVER_ERROR), is_last=True)\n", "            pass\n", "non-renderable exception gets no response")
+R.seed("C09.a", F_PIPE, "            except Exception as e2:", "            except error.Error as e2:", "handler narrowed: a renderer raising ValueError escapes")
+R.seed("C09.a", F_PIPE, "            old_pr.add_response(msg, is_last=True)\n", "            old_pr.add_response(msg, is_last=True)\n            old_pr.add_response(msg, is_last=True)\n", "second add_response")
+R.seed("C09.a", F_PIPE, "        return False\n\n    remove_interest", "        return True\n\n    remove_interest", "handler stays registered after the terminal event")
+R.seed("C09.a", F_PIPE, "                if msg is None:\n", "                if False:\n", "None rendering is passed on as response")
+R.seed("C09.a", F_PIPE, "            old_pr.add_response(event.message, event.is_last)\n", "            old_pr.add_response(event.message, True)\n", "first notification ends the exchange")
+R.seed("C09.a", F_PIPE, "            return not event.is_last\n", "            return True\n", "handler never deregisters")
+R.seed("C09.a", F_PIPE, "        if isinstance(e, error.RenderableError):", "        if isinstance(e, error.ConstructionRenderableError):", "other renderable errors become 5.00")
+R.seed("C09.b", F_PIPE, "                msg = Message(code=INTERNAL_SERVER_ERROR)\n", "                msg = Message(code=INTERNAL_SERVER_ERROR, payload=str(e2).encode())\n", "exception text leaks")
+R.seed("C09.b", F_PIPE, "            old_pr.add_response(Message(code=INTERNAL_SERVER_ERROR), is_last=True)\n", "            old_pr.add_response(Message(code=INTERNAL_SERVER_ERROR, payload=str(e).encode()), is_last=True)\n", "exception text leaks")
+R.seed("C09.b", F_PIPE, "                msg = Message(code=INTERNAL_SERVER_ERROR)\n", "                msg = Message(code=INTERNAL_SERVER_ERROR)\n                msg.payload = repr(e2).encode()\n", "exception text leaks through a later store")
+R.seed("C09.b", F_PIPE, "from .numbers import INTERNAL_SERVER_ERROR\n", "from .numbers import BAD_REQUEST as INTERNAL_SERVER_ERROR\n", "fallback is not 5.00")
+R.seed("C09.c", F_PIPE, "        except Exception as e:\n            pipe.add_exception(e)\n", "        except error.Error as e:\n            pipe.add_exception(e)\n", "arbitrary exceptions of the handler get no response")
+R.seed("C09.c", F_PIPE, "        except Exception as e:\n            pipe.add_exception(e)\n", "        except Exception as e:\n            pass\n", "exception swallowed")
+R.seed("C09.c", F_PIPE, "        self._add_event(self.Event(None, exception, True))\n", "        self._add_event(self.Event(None, exception, False))\n", "exception event not terminal")
+R.seed("C09.c", F_PROTO, "        run_driving_pipe(\n            pr_that_can_receive_errors,\n", "        run_driving_pipe(\n            pipe,\n", "exceptions bypass error_to_message")
+R.seed("C09.d", F_PROTO, "Message(code=NOT_FOUND, payload=b\"not a server\"), is_last=True", "Message(code=NOT_FOUND, payload=b\"not a server\"), is_last=False")
+R.seed("C09.d", F_PROTO, "Message(code=NOT_FOUND, payload=b\"not a server\"), is_last=True", "Message(code=INTERNAL_SERVER_ERROR, payload=b\"not a server\"), is_last=True")
+R.seed("C09.d", F_PROTO, "is_last=True\n            )\n            return\n", "is_last=True\n            )\n", "falls through to a missing site")
+R.seed("C09.e", F_RES, "                response_default = Code.DELETED\n", "                response_default = Code.CHANGED\n", "DELETE -> 2.04")
+R.seed("C09.e", F_RES, "            raise error.UnallowedMethod()\n", "            raise error.NotFound()\n")
+R.seed("C09.e", F_RES, "            raise error.UnsupportedMethod()\n", "            raise error.BadRequest()\n")
+R.seed("C09.e", F_RES, "        if response.code is None:\n", "        if True:\n", "handler's code overwritten")
+R.seed("C09.e", F_RES, "            if request.code in (Code.GET, Code.FETCH):", "            if request.code in (Code.GET,):", "FETCH -> 2.04")
+R.seed("C09.e", F_RES, "        if response.opt.no_response is None:\n            response.opt.no_response = request.opt.no_response\n", "", "No-Response not honoured")
+R.seed("C09.e", F_RES, "        if not request.code.is_request():\n            raise error.UnsupportedMethod()\n", "", "non-request codes reach the handler lookup")
+R.seed("C09.e", F_ERR, "class UnallowedMethod(MethodNotAllowed):", "class UnallowedMethod(NotFound):", "4.04 instead of 4.05")
+R.seed("C09.f", F_RES, "            raise error.NotFound()\n        else:\n            return await child.render(subrequest)\n", "            return\n        else:\n            return await child.render(subrequest)\n", "unknown path returns None -> 5.00")
+R.seed("C09.f", F_RES, "        except KeyError:\n            raise error.NotFound()\n        else:\n            # FIXME consider", "        except IndexError:\n            raise error.NotFound()\n        else:\n            # FIXME consider", "KeyError escapes -> 5.00")
+R.seed("C09.f", F_RES, "            raise error.NotFound()\n        else:\n            # FIXME consider", "            raise error.BadRequest()\n        else:\n            # FIXME consider", "unknown path -> 4.00")
+R.seed("C09.f", F_RES, "            raise KeyError()\n\n        remainder", "            raise ValueError()\n\n        remainder", "empty path -> ValueError -> 5.00")
+R.seed("C09.f", F_RES, "            raise error.BadOption() from None\n", "            raise ValueError() from None\n", "unknown abbreviation -> 5.00")
+R.seed("C09.f", F_RES, "        except KeyError:\n            # Unknown option\n", "        except IndexError:\n            # Unknown option\n", "unknown abbreviation -> KeyError -> 5.00")
+R.seed("C09.f", F_RES, "        _expand_upa(request.request)\n", "", "abbreviated paths are not found")
+R.seed("C09.g", F_IF, "        pipe.add_response(res, is_last=True)\n", "        pipe.add_response(res, is_last=False)\n")
+R.seed("C09.g", F_IF, "        pipe.add_response(res, is_last=True)\n", "        pipe.add_response(res, is_last=True)\n        pipe.add_response(res, is_last=True)\n", "second add_response")
+R.seed("C09.g", F_IF, "            res = await self.render(req)\n\n        pipe.add_response(res, is_last=True)\n", "            res = await self.render(req)\n            pipe.add_response(res, is_last=True)\n", "blockwise arm adds nothing")
+R.seed("C09.h", F_TM, "                m.token = request.token\n", "", "response without the request's token")
+R.seed("C09.h", F_TM, "                m.remote = request.remote.as_response_address()\n", "                m.remote = request.remote\n", "multicast responses from the group address")
+R.seed("C09.h", F_TM, "            if not ev.is_last:\n                return True\n", "            return True\n", "handler never deregisters")
+R.seed("C09.h", F_TM, "            if not ev.is_last:\n                return True\n", "            if ev.is_last:\n                return True\n", "inverted")
+R.seed("C09.h", F_TM, "            if not ev.is_last:\n                return True\n", "", "notifications after the first are dropped")
+R.seed("C09.i", F_PIPE, "        if self._event_callbacks is False:\n            if event.exception is not None:", "        if self._event_callbacks is None:\n            if event.exception is not None:", "events after the end are delivered")
+R.seed("C09.i", F_PIPE, "        cbs = self._event_callbacks\n        self._event_callbacks = False\n", "        cbs = self._event_callbacks\n", "pipe never marked ended")
+R.seed("C09.i", F_PIPE, "                self._event_callbacks.remove((cb, is_interest))\n", "                pass\n", "declining handlers stay registered")
+R.seed("C09.i", F_PIPE, "        if not self._any_interest():\n            self._end()\n\n    def add_response(self", "    def add_response(self", "pipe does not end after the final event")
+R.seed("C09.j", F_ERR, "class NotFound(ConstructionRenderableError):\n    code = codes.NOT_FOUND\n", "class NotFound(ConstructionRenderableError):\n    code = codes.BAD_REQUEST\n")
+R.seed("C09.j", F_CODES, "    NOT_FOUND = 132\n", "    NOT_FOUND = 133\n")
+R.seed("C09.j", F_CODES, "NOT_FOUND = Code.NOT_FOUND\n", "NOT_FOUND = Code.BAD_REQUEST\n", "module alias points at another member")
+R.seed("C09.j", F_ERR, "return Message(code=self.code, payload=self.message.encode(\"utf8\"))", "return Message(code=codes.INTERNAL_SERVER_ERROR, payload=self.message.encode(\"utf8\"))", "every renderable error becomes 5.00")
+R.seed("C09.j", F_ERR, "return Message(code=self.code, payload=self.message.encode(\"utf8\"))", "return Message(code=self.code, payload=repr(self).encode(\"utf8\"))", "diagnostic payload replaced")
+R.seed("C09.j", F_ERR, "class HopLimitReached(ConstructionRenderableError):\n    code = codes.HOP_LIMIT_REACHED", "class HopLimitReached(ConstructionRenderableError):\n    code = codes.GATEWAY_TIMEOUT")
+R.seed("C09.j", F_CODES, "    HOP_LIMIT_REACHED = (5 << 5) + 8\n", "    HOP_LIMIT_REACHED = (5 << 5) + 7\n")
